@@ -464,6 +464,21 @@ def byte_sets(prog, fpath):
                 k = const_eval(g, rv["b"])
                 if k is not None and rv["op"] in ("Le", "Lt") and lo is not None:
                     width = int(k) - (1 if rv["op"] == "Lt" else 0)
+                elif k is not None and rv["op"] in ("Gt", "Ge") and lo is not None and g.term(bb)["k"] == "switch":
+                    # the inverted form `if b.wrapping_sub(lo) > w { continue }`: the window is the *false* side, and the
+                    # byte match must lie on it (not reachable from the true side without going round the loop)
+                    heads = {h for h, _b in cfg.natural_loops(g)}
+                    t_side = set()
+                    for (_sb, tgt) in cfg.bool_edges(g, bb, True):
+                        t_side |= cfg.reach_from(g, tgt, avoid=heads)
+                    f_side = set()
+                    for (_sb, tgt) in cfg.bool_edges(g, bb, False):
+                        f_side |= cfg.reach_from(g, tgt, avoid=heads)
+                    matches_ = [b_ for b_, _s in sets]
+                    if matches_ and all(m_ in f_side and m_ not in t_side for m_ in matches_):
+                        width = int(k) - (1 if rv["op"] == "Ge" else 0)
+                    else:
+                        other_cmp = True
                 else:
                     other_cmp = True
     if other_cmp and (lo is None or width is None):
